@@ -189,9 +189,15 @@ def bisect_grid(ctx, block):
     precision = block["precision"]
     site = "bisect"
     n = len(els)
+    # documented contract: the search stops with an error when the iteration budget is exceeded.  In exact
+    # arithmetic n* = max_i ceil(log2(width_i / precision)) halvings suffice; floating-point midpoints can cost
+    # one more.  Giving bisect the budget n* + 2 keeps a non-converging implementation from spinning through the
+    # default 100000 iterations on each of the ~5000 calls, and turns it into a violation instead.
+    nstar = max(max(0, math.ceil(math.log2(float(m["hi"] - m["lo"]) / precision))) for m in model)
+    max_iter = block.get("max_iter", nstar + 2)
     try:
         with watchdog(20):
-            out = bisect(fn, target, lower, upper, precision=precision, **({"max_iter": block["max_iter"]} if "max_iter" in block else {}))
+            out = bisect(fn, target, lower, upper, precision=precision, max_iter=max_iter)
     except _Hang:
         ctx.tick(n)
         ctx.violation(site, "hang", f"bisect did not return within 20 s on {block}", block=block)
@@ -199,8 +205,7 @@ def bisect_grid(ctx, block):
     except RuntimeError as e:
         ctx.tick(n)
         ctx.violation(site, "raises_on_attainable_precision",
-                      f"RuntimeError on a search the model completes in "
-                      f"{max(math.ceil(math.log2(float(m['hi'] - m['lo']) / precision)) for m in model)} halvings: {e}",
+                      f"RuntimeError (max_iter={max_iter}) on a search the model completes in {nstar} halvings: {e}",
                       observed=str(e), expected="a root", block=block)
         return
     want_shape = tuple(block["shape"])
